@@ -94,9 +94,116 @@ theorem representToBases_spec (hn : 1 < n) (bases : List Int) (lm : ℕ)
   refine ⟨r, h, a, b, ?_⟩
   rw [c]; simp
 
+/-! ### `RepresentToPublicKey`: the guard against negative oversized exponents -/
+
+theorem negOversized_iff {lm : ℕ} {m : Int} :
+    negOversized lm m = true ↔ (m < 0 ∧ bitLen m > lm) := by
+  simp [negOversized]
+
+theorem any_negOversized_eq_false_iff {lm : ℕ} {ms : List Int} :
+    ms.any (negOversized lm) = false ↔ ∀ m ∈ ms, ¬ (m < 0 ∧ bitLen m > lm) := by
+  rw [List.any_eq_false]
+  constructor
+  · intro h m hm hc
+    exact h m hm (negOversized_iff.mpr hc)
+  · intro h m hm hc
+    exact h m hm (negOversized_iff.mp hc)
+
+/-- non-negative exponents pass the guard. -/
+theorem any_negOversized_of_nonneg {lm : ℕ} {ms : List Int} (h : ∀ m ∈ ms, 0 ≤ m) :
+    ms.any (negOversized lm) = false :=
+  any_negOversized_eq_false_iff.mpr fun m hm hc => absurd (h m hm) (by omega)
+
+/-- the error return of `RepresentToPublicKey`: it comes before any base is indexed, so it is
+    returned whatever the number of bases is. -/
+theorem representToPublicKey_of_any {pk : PublicKey} {ms : List Int}
+    (h : ms.any (negOversized pk.params.Lm) = true) : representToPublicKey pk ms = .ok none := by
+  unfold representToPublicKey
+  rw [if_pos h]
+  rfl
+
+theorem representToPublicKey_ok {pk : PublicKey} {ms : List Int} {r : Int}
+    (h : ms.any (negOversized pk.params.Lm) = false)
+    (hr : representToBases pk.r ms pk.n pk.params.Lm = .ok r) :
+    representToPublicKey pk ms = .ok (some r) := by
+  unfold representToPublicKey
+  rw [if_neg (by rw [h]; exact Bool.false_ne_true), hr]
+  rfl
+
+theorem representToPublicKey_error {pk : PublicKey} {ms : List Int} {err : GoPanic}
+    (h : ms.any (negOversized pk.params.Lm) = false)
+    (hr : representToBases pk.r ms pk.n pk.params.Lm = .error err) :
+    representToPublicKey pk ms = .error err := by
+  unfold representToPublicKey
+  rw [if_neg (by rw [h]; exact Bool.false_ne_true), hr]
+  rfl
+
+/-- inversion: a value returned by `RepresentToPublicKey` is the one of `RepresentToBases`, and
+    no exponent of the block is negative and longer than `Lm`. -/
+theorem representToPublicKey_ok_some {pk : PublicKey} {ms : List Int} {r : Int}
+    (h : representToPublicKey pk ms = .ok (some r)) :
+    ms.any (negOversized pk.params.Lm) = false ∧
+      representToBases pk.r ms pk.n pk.params.Lm = .ok r := by
+  cases hany : ms.any (negOversized pk.params.Lm) with
+  | true =>
+    rw [representToPublicKey_of_any hany] at h
+    cases h
+  | false =>
+    refine ⟨rfl, ?_⟩
+    cases hr : representToBases pk.r ms pk.n pk.params.Lm with
+    | error err =>
+      rw [representToPublicKey_error hany hr] at h
+      cases h
+    | ok r' =>
+      rw [representToPublicKey_ok hany hr] at h
+      cases h
+      rfl
+
+theorem representToPublicKey_join_ok {pk : PublicKey} {ms : List Int} {r : Int}
+    (h : ms.any (negOversized pk.params.Lm) = false)
+    (hr : representToBases pk.r ms pk.n pk.params.Lm = .ok r) :
+    (representToPublicKey pk ms).toOption.join = some r := by
+  rw [representToPublicKey_ok h hr]
+  rfl
+
+theorem representToPublicKey_join_of_any {pk : PublicKey} {ms : List Int}
+    (h : ms.any (negOversized pk.params.Lm) = true) :
+    (representToPublicKey pk ms).toOption.join = none := by
+  rw [representToPublicKey_of_any h]
+  rfl
+
+/-- the issuer signs nothing when the guard of `RepresentToPublicKey` fires. -/
+theorem clSignWith_of_negOversized {pk : PublicKey} {order u : Int} {ms : List Int} {v e : Int}
+    (h : ms.any (negOversized pk.params.Lm) = true) : clSignWith pk order u ms v e = none := by
+  unfold clSignWith
+  rw [representToPublicKey_join_of_any h]
+  rfl
+
+/-- a block that the issuer signed has no negative message longer than `Lm`. -/
+theorem clSignWith_some_guard {pk : PublicKey} {order u : Int} {ms : List Int} {v e : Int}
+    {sig : CLSignature} (h : clSignWith pk order u ms v e = some sig) :
+    ms.any (negOversized pk.params.Lm) = false := by
+  cases hany : ms.any (negOversized pk.params.Lm) with
+  | false => rfl
+  | true =>
+    rw [clSignWith_of_negOversized hany] at h
+    cases h
+
 noncomputable def keyshareU (n : ℕ) : Option Int → (ZMod n)ˣ
   | some p => zunit n p
   | none => 1
+
+/-- `CLSignature.Verify` when the guard of `RepresentToPublicKey` fires: `false`, after the checks
+    on `e` and the computation of `A^e`, whatever the number of bases is. -/
+theorem clVerifyWith_of_negOversized (isPrime : Nat → Bool) (pk : PublicKey) (sig : CLSignature)
+    (ms : List Int) {ae : Int}
+    (hint : eInInterval pk.params sig.e = true) (hprime : isPrime sig.e.toNat = true)
+    (hae : goExp sig.a sig.e pk.n = some ae)
+    (hany : ms.any (negOversized pk.params.Lm) = true) :
+    clVerifyWith isPrime pk sig ms = .ok false := by
+  unfold clVerifyWith
+  simp only [hint, hprime, hae, representToPublicKey_of_any hany, deref, bind, Except.bind, pure,
+    Except.pure, Bool.not_true, Bool.false_eq_true, if_false]
 
 theorem clVerifyWith_iff (isPrime : Nat → Bool) (pk : PublicKey) (sig : CLSignature) (ms : List Int)
     (hN : pk.n = n) (hn : 1 < n) (hz0 : 0 ≤ pk.z) (hz1 : pk.z < pk.n)
@@ -106,16 +213,24 @@ theorem clVerifyWith_iff (isPrime : Nat → Bool) (pk : PublicKey) (sig : CLSign
     (hlen : ms.length ≤ pk.r.length)
     (hint : eInInterval pk.params sig.e = true) (hprime : isPrime sig.e.toNat = true) :
     ∃ b, clVerifyWith isPrime pk sig ms = .ok b ∧
-      (b = true ↔ zunit n sig.a ^ sig.e * (repU n pk.params.Lm pk.r ms * keyshareU n sig.keyshareP) *
-        zunit n pk.s ^ sig.v = zunit n pk.z) := by
+      (b = true ↔ (ms.any (negOversized pk.params.Lm) = false ∧
+        zunit n sig.a ^ sig.e * (repU n pk.params.Lm pk.r ms * keyshareU n sig.keyshareP) *
+        zunit n pk.s ^ sig.v = zunit n pk.z)) := by
   obtain ⟨ae, hae, ae0, ae1, aec⟩ := goExp_unit hn ha sig.e
   obtain ⟨sv, hsv, sv0, sv1, svc⟩ := goExp_unit hn hs sig.v
   obtain ⟨r, hrr, r0, r1, rc⟩ := representToBases_spec hn pk.r pk.params.Lm hr ms hlen
+  cases hany : ms.any (negOversized pk.params.Lm) with
+  | true =>
+    rw [← hN] at hae
+    exact ⟨false, clVerifyWith_of_negOversized isPrime pk sig ms hint hprime hae hany, by simp⟩
+  | false =>
+  have hrp : representToPublicKey pk ms = .ok (some r) :=
+    representToPublicKey_ok hany (by rw [hN]; exact hrr)
   unfold clVerifyWith
-  simp only [hint, hprime, hN, hae, hrr, modPow, hsv, deref, bind, Except.bind, pure, Except.pure]
+  simp only [hint, hprime, hN, hae, hrp, modPow, hsv, deref, bind, Except.bind, pure, Except.pure]
   simp only [Bool.not_true, Bool.false_eq_true, if_false]
   refine ⟨_, rfl, ?_⟩
-  rw [decide_eq_true_iff]
+  rw [decide_eq_true_iff, true_and]
   have hn0 : 0 < n := by omega
   rw [hN] at hz1
   rw [← cast_eq_iff hz0 hz1 (emod_range hn0 _).1 (emod_range hn0 _).2, cast_emod, ← zunit_val hz,
@@ -143,8 +258,9 @@ theorem clSignWith_spec (pk : PublicKey) (order u : Int) (ms : List Int) (v e : 
             (ZMod n)ˣ) : ZMod n) := by
   obtain ⟨sv, hsv, sv0, sv1, svc⟩ := goExp_unit hn hs v
   obtain ⟨r, hrr, r0, r1, rc⟩ := representToBases_spec hn pk.r pk.params.Lm hr ms hlen
+  have hrp := representToPublicKey_join_ok (clSignWith_some_guard h) (by rw [hN]; exact hrr)
   unfold clSignWith at h
-  simp only [hN, hrr, hsv, Except.toOption, Option.bind_eq_bind, Option.bind_some,
+  simp only [hN, hrp, hsv, Option.bind_eq_bind, Option.bind_some,
     Option.bind_eq_some_iff, Option.pure_def, Option.some.injEq] at h
   obtain ⟨inv, hinv, d, hd, a, ha, rfl⟩ := h
   have hn0 : 0 < n := by omega
@@ -188,18 +304,20 @@ def blockWithKeyshare (r : Int) : Option Int → Int
   | some p => r * p
   | none => r
 
-/-- `CLSignature.Verify` when all partial computations succeed (pure computation). -/
+/-- `CLSignature.Verify` when all partial computations succeed (pure computation) and the guard
+    of `RepresentToPublicKey` lets the block pass. -/
 theorem clVerifyWith_of_parts (isPrime : Nat → Bool) (pk : PublicKey) (sig : CLSignature) (ms : List Int)
     {ae r sv : Int}
     (hint : eInInterval pk.params sig.e = true) (hprime : isPrime sig.e.toNat = true)
     (hae : goExp sig.a sig.e pk.n = some ae)
+    (hany : ms.any (negOversized pk.params.Lm) = false)
     (hr : representToBases pk.r ms pk.n pk.params.Lm = .ok r)
     (hsv : goExp pk.s sig.v pk.n = some sv) :
     clVerifyWith isPrime pk sig ms =
       .ok (decide (pk.z = ae * blockWithKeyshare r sig.keyshareP * sv % pk.n)) := by
   unfold clVerifyWith
-  simp only [hint, hprime, hae, hr, modPow, hsv, deref, bind, Except.bind, pure, Except.pure,
-    Bool.not_true, Bool.false_eq_true, if_false]
+  simp only [hint, hprime, hae, representToPublicKey_ok hany hr, modPow, hsv, deref, bind,
+    Except.bind, pure, Except.pure, Bool.not_true, Bool.false_eq_true, if_false]
   obtain ⟨a, e, v, kp⟩ := sig
   cases kp <;> rfl
 
@@ -229,18 +347,53 @@ theorem clVerifyWith_ok_true (isPrime : Nat → Bool) (pk : PublicKey) (sig : CL
     unfold clVerifyWith at h
     simp [hint, hprime, hae, deref, bind, Except.bind] at h
   | some ae =>
+  cases hany : ms.any (negOversized pk.params.Lm) with
+  | true =>
+    rw [clVerifyWith_of_negOversized isPrime pk sig ms hint hprime hae hany] at h
+    cases h
+  | false =>
   cases hr : representToBases pk.r ms pk.n pk.params.Lm with
   | error err =>
     unfold clVerifyWith at h
-    simp [hint, hprime, hae, hr, deref, bind, Except.bind, pure, Except.pure] at h
+    simp [hint, hprime, hae, representToPublicKey_error hany hr, deref, bind, Except.bind, pure,
+      Except.pure] at h
   | ok r =>
   cases hsv : goExp pk.s sig.v pk.n with
   | none =>
     unfold clVerifyWith at h
-    simp [hint, hprime, hae, hr, hsv, modPow, deref, bind, Except.bind, pure, Except.pure] at h
+    simp [hint, hprime, hae, representToPublicKey_ok hany hr, hsv, modPow, deref, bind,
+      Except.bind, pure, Except.pure] at h
   | some sv =>
-    rw [clVerifyWith_of_parts isPrime pk sig ms hint hprime hae hr hsv] at h
+    rw [clVerifyWith_of_parts isPrime pk sig ms hint hprime hae hany hr hsv] at h
     exact ⟨ae, r, sv, rfl, rfl, rfl, of_decide_eq_true (Except.ok.inj h)⟩
+
+/-- inversion, the guard: an accepted block has no negative message longer than `Lm`
+    (`RepresentToPublicKey` returned no error). -/
+theorem clVerifyWith_ok_true_guard (isPrime : Nat → Bool) (pk : PublicKey) (sig : CLSignature)
+    (ms : List Int) (h : clVerifyWith isPrime pk sig ms = .ok true) :
+    ms.any (negOversized pk.params.Lm) = false := by
+  cases hint : eInInterval pk.params sig.e with
+  | false =>
+    unfold clVerifyWith at h
+    simp [hint] at h
+    cases h
+  | true =>
+  cases hprime : isPrime sig.e.toNat with
+  | false =>
+    unfold clVerifyWith at h
+    simp [hint, hprime] at h
+    cases h
+  | true =>
+  cases hae : goExp sig.a sig.e pk.n with
+  | none =>
+    unfold clVerifyWith at h
+    simp [hint, hprime, hae, deref, bind, Except.bind] at h
+  | some ae =>
+  cases hany : ms.any (negOversized pk.params.Lm) with
+  | true =>
+    rw [clVerifyWith_of_negOversized isPrime pk sig ms hint hprime hae hany] at h
+    cases h
+  | false => rfl
 theorem eInInterval_pos {p : SysParams} {e : Int} (h : eInInterval p e = true) : 0 < e := by
   unfold eInInterval at h
   simp only [Bool.and_eq_true, decide_eq_true_eq] at h
@@ -290,6 +443,7 @@ theorem clRandomize_verifies_aux (isPrime : Nat → Bool) (pk : PublicKey) (sig 
     (h : clVerifyWith isPrime pk sig ms = .ok true) :
     clVerifyWith isPrime pk (clRandomize pk sig rr) ms = .ok true := by
   obtain ⟨hint, hprime, _⟩ := clVerifyWith_ok_true isPrime pk sig ms h
+  have hany := clVerifyWith_ok_true_guard isPrime pk sig ms h
   obtain ⟨r, hr, hua, hub, heq⟩ := clVerifyWith_units isPrime pk sig ms hN hn hz hs h
   rw [hkp] at hub heq
   simp only [blockWithKeyshare] at hub heq
@@ -306,7 +460,7 @@ theorem clRandomize_verifies_aux (isPrime : Nat → Bool) (pk : PublicKey) (sig 
   obtain ⟨sv', hsv', _, _, svc'⟩ := goExp_unit hn hs (sig.v - sig.e * rr)
   rw [← hN] at hae' hsv'
   have := clVerifyWith_of_parts isPrime pk (clRandomize pk sig rr) ms (ae := ae') (r := r) (sv := sv')
-    hint hprime hae' hr hsv'
+    hint hprime hae' hany hr hsv'
   rw [this]
   congr 1
   rw [decide_eq_true_iff]
@@ -343,15 +497,19 @@ theorem representToBases_range (hn : 1 < n) {bases es : List Int} {lm : ℕ} {r 
   representToBases_go_range (by omega) bases lm es 0 1 r (by omega) (by exact_mod_cast hn) h
 
 /-- the issuer's signing computation succeeds on a key whose bases are invertible, for `e`
-    invertible modulo `order`. -/
+    invertible modulo `order`, on a block without a negative message longer than `Lm` (for such a
+    message `RepresentToPublicKey` returns its error and nothing is signed:
+    `clSignWith_of_negOversized`). -/
 theorem clSignWith_isSome (pk : PublicKey) (order u : Int) (ms : List Int) (v e : Int)
     (hN : pk.n = n) (hn : 1 < n)
     (hz : IsUnit (pk.z : ZMod n)) (hs : IsUnit (pk.s : ZMod n))
     (hr : ∀ b ∈ pk.r, IsUnit (b : ZMod n)) (hu : IsUnit (u : ZMod n))
-    (hlen : ms.length ≤ pk.r.length) (ho : 0 < order) (he : Int.gcd e order = 1) :
+    (hlen : ms.length ≤ pk.r.length) (hany : ms.any (negOversized pk.params.Lm) = false)
+    (ho : 0 < order) (he : Int.gcd e order = 1) :
     ∃ sig, clSignWith pk order u ms v e = some sig := by
   obtain ⟨sv, hsv, sv0, sv1, svc⟩ := goExp_unit hn hs v
   obtain ⟨r, hrr, r0, r1, rc⟩ := representToBases_spec hn pk.r pk.params.Lm hr ms hlen
+  have hrp := representToPublicKey_join_ok hany (by rw [hN]; exact hrr)
   have hnum : ((sv * r * u % (n : Int) : Int) : ZMod n) =
       ((zunit n pk.s ^ v * repU n pk.params.Lm pk.r ms * zunit n u : (ZMod n)ˣ) : ZMod n) := by
     rw [cast_emod]; push_cast; rw [svc, rc, zunit_val hu]
@@ -365,7 +523,7 @@ theorem clSignWith_isSome (pk : PublicKey) (order u : Int) (ms : List Int) (v e 
     obtain ⟨a, ha, _⟩ := goExp_unit hn (isUnit_of_cast hq) d
     refine ⟨{ a := a, e := e, v := v }, ?_⟩
     unfold clSignWith
-    simp only [hN, hrr, hsv, Except.toOption, Option.bind_eq_bind, Option.bind_some, hinv, hd, ha,
+    simp only [hN, hrp, hsv, Option.bind_eq_bind, Option.bind_some, hinv, hd, ha,
       Option.pure_def]
 /-- a signature produced by the issuer carries no keyshare factor and the given `e`, `v`. -/
 theorem clSignWith_keyshareP {pk : PublicKey} {order u : Int} {ms : List Int} {v e : Int}
